@@ -356,7 +356,7 @@ func vectors(n int) []string {
 
 func run(r *core.Run) int {
 	r.Rule = "an in-process RFC 3161 authority behind tspclient's HTTP timestamper: behaviours {granted, rejection / waiting / warning status, imprint of other bytes, other hash algorithm, wrong / missing nonce, untrusted root, defective TSA leaf (EKU not critical / extra EKU / wrong or absent key usage / CA) or CA (key usage absent / no certSign / pathLen too small), certificates omitted, intermediates omitted, wrong CMS content type, missing signed attributes, wrong message digest, broken signature, wrong signing-certificate hash, garbage, truncated, empty, wrong HTTP content type, HTTP 500, transport error, timeout, granted without token} " +
-		"x revocation validator {absent, every vector over {OK, NonRevokable, Unknown, Revoked}^n for the TSA chain length n = 2..4, error, wrong length, empty} x 2 formats x 2 schemes x timestamper present/absent; complete for P-256, pairwise for the other five key specs. non-trivial = a timestamper is set; distinct by descriptor"
+		"x revocation validator {absent, every vector over {OK, NonRevokable, Unknown, Revoked}^n for the TSA chain length n = 2..4, error, wrong length, empty} x 2 formats x 2 schemes x timestamper present/absent; complete for P-256; the other five key specs pairwise (quick) or with the same product over chain lengths 2..3 (thorough). non-trivial = a timestamper is set; distinct by descriptor"
 	r.Assume("a TSA chain that expired decades ago (or starts decades from now) does not 'chain to the trusted roots' at the time of signing, whatever genTime the token claims")
 	r.Assume("the authority double labels what it served; 'granted with modifications', a non-UTC genTime and TSTInfo version 2 are not settled by the statement and only counted")
 	hostTrustStore(r)
@@ -383,7 +383,23 @@ func run(r *core.Run) int {
 			cases = append(cases, &Case{MT: mt, Kind: "p256", Scheme: "notary.x509.signingAuthority", Behaviour: b, TSALen: 2, Validator: "vector:OK,OK"})
 			cases = append(cases, &Case{MT: mt, Kind: "p256", Scheme: "notary.x509", Behaviour: b, TSALen: 2, Validator: "vector:Revoked,OK", NoTSA: true})
 		}
-		// the other key specs: pairwise with behaviours and a few validators
+		// the other key specs: thorough, the same product as for P-256 (chain
+		// lengths 2 and 3) ...
+		if !r.Quick() {
+			for _, kind := range []string{"p384", "p521", "rsa2048", "rsa3072", "rsa4096"} {
+				for _, b := range sims.TSABehaviours {
+					for _, n := range []int{2, 3} {
+						for _, v := range append([]string{"absent", "error", "wrong-length", "empty"}, vectors(n)...) {
+							if classOf(b, n) == "bad" && strings.HasPrefix(v, "vector:") && rng.IntN(4) != 0 {
+								continue
+							}
+							cases = append(cases, &Case{MT: mt, Kind: kind, Scheme: "notary.x509", Behaviour: b, TSALen: n, Validator: v})
+						}
+					}
+				}
+			}
+		}
+		// ... and in both tiers pairwise with behaviours and a few validators
 		for _, kind := range []string{"p384", "p521", "rsa2048", "rsa3072", "rsa4096"} {
 			for _, b := range sims.TSABehaviours {
 				for _, v := range []string{"absent", "vector:OK,NonRevokable", "vector:OK,Unknown", "vector:Revoked,OK", "error"} {
